@@ -161,9 +161,10 @@ double Integrate_Gauss_Legendre(std::vector<double> function_values, std::vector
 double Integrate(std::function<double(double)> func, double a, double b, const std::string& method, int method_parameter)
 {
 	double sign = 1.0;
-	if(a == b)
+	bool known_method = (method == "Trapezoidal" || method == "Gauss-Legendre" || method == "Gauss-Kronrod" || method == "Tanh-Sinh" || method == "Gauss-Legendre_2" || method == "Adaptive-Simpson");
+	if(a == b && known_method)
 		return 0.0;
-	else
+	else if(a != b)
 		Check_Integration_Limits(a, b, sign);
 	if(method == "Trapezoidal")
 		return sign * trapezoidal(func, a, b);
